@@ -897,7 +897,7 @@ replace_read_d2f	(SF_PRIVATE *psf, float *ptr, sf_count_t len)
 
 		d2bd_read (ubuf.dbuf, bufferlen) ;
 
-		memcpy (ptr + total, ubuf.dbuf, bufferlen * sizeof (double)) ;
+		d2f_array (ubuf.dbuf, readcount, ptr + total) ;
 
 		total += readcount ;
 		if (readcount < bufferlen)
